@@ -72,6 +72,25 @@ MUST_ACCEPT = [
 
 
 # ------------------------------------------------------------------ helpers
+def _poke_outside(a, bs, where, how):
+    """one sample just outside (or at the far end beyond) the range of bs stored bits, at the first / last / a middle
+    position; returns None when the dtype cannot hold such a value"""
+    if a.dtype.kind not in 'iu' or a.size == 0:
+        return None
+    info = np.iinfo(a.dtype)
+    if a.dtype.kind == 'i':
+        lo, hi = -(2 ** (bs - 1)), 2 ** (bs - 1) - 1
+        cand = {'above': hi + 1, 'below': lo - 1, 'max': int(info.max), 'min': int(info.min)}[how]
+    else:
+        lo, hi = 0, 2 ** bs - 1
+        cand = {'above': hi + 1, 'below': hi + 1, 'max': int(info.max), 'min': int(info.max)}[how]
+    if not (int(info.min) <= cand <= int(info.max)) or lo <= cand <= hi:
+        return None
+    b = a.copy()
+    b.flat[{'first': 0, 'last': b.size - 1, 'middle': b.size // 2}[where]] = cand
+    return b
+
+
 def _mk_array(nr, dtype, shape, ba, bs, pr, content='random'):
     """deterministic frame of the given dtype; values fit bits_stored when that is meaningful"""
     if dtype == 'bool':
@@ -219,7 +238,8 @@ def _array_of_case(case):
 def _model_args(ts, ba, bs, pi, pr, pc, a):
     return {'ts': ts, 'ba': ba, 'bs': bs, 'pi': pi, 'pr': pr, 'planar': pc, 'shape0': a.shape[0], 'shape1': a.shape[1],
             'shape2': a.shape[2] if a.ndim > 2 else 0, 'ndim': a.ndim, 'kind': a.dtype.kind, 'itemsize': a.dtype.itemsize,
-            'dtype': str(a.dtype), 'max': int(a.max()) if a.dtype.kind != 'f' else int(np.nanmax(a))}
+            'dtype': str(a.dtype), 'max': int(a.max()) if a.dtype.kind != 'f' else int(np.nanmax(a)),
+            'min': int(a.min()) if a.dtype.kind != 'f' else int(np.nanmin(a))}
 
 
 # ------------------------------------------------------------------ one request through implementation, oracle, model
@@ -278,8 +298,8 @@ def _check(ctx, kind, ts, dtype, ba, bs, samples, pi, pr, pc, a, reqs, pending, 
             ctx.fail(case, f'encode_frame returned {type(val).__name__}', site='encode')
             return
         if not fits:
-            ctx.hist('skipped', 'content exceeds bits_stored')
-        else:
+            ctx.hist('content', 'a sample outside bits_stored was accepted')
+        if True:
             st2, dec = _decode(val, ts, rows, cols, spp, ba, bs, pi, pr, pc)
             shape_free = (a.ndim == 3 and a.shape[2] == 1)
             if st2 != 'ok':
@@ -356,6 +376,23 @@ def _cells(ctx, reqs, pending):
             for pc2 in (None, 0):
                 _check(ctx, 'side', ts, dt, ba, ba, s2, pi, pr, pc2, a, reqs, pending)
             side += 1
+    # bits stored below bits allocated: in-range content, and ONE sample outside (first / last pixel, just outside / at
+    # the dtype's extreme) -- for every lossless syntax, unsigned and signed: must be refused or round-trip
+    for ts in (IMPLICIT, EXPLICIT, RLE, JLS):
+        for dt, ba, bs, pr in (('uint16', 16, 12, 0), ('uint8', 8, 4, 0), ('uint16', 16, 9, 0), ('int16', 16, 12, 1),
+                               ('int8', 8, 4, 1), ('uint16', 16, 15, 0), ('int16', 16, 15, 1)):
+            if ts == JLS and pr == 1:
+                continue
+            shp = (16, 16) if ts == JLS else (4, 6)
+            base = _mk_array(ctx.np_rng('side-out', side), dt, shp, ba, bs, pr)
+            _check(ctx, 'side', ts, dt, ba, bs, None, 'MONOCHROME2', pr, None, base, reqs, pending)
+            side += 1
+            for where in ('first', 'last'):
+                for how in ('above', 'below', 'max', 'min'):
+                    b = _poke_outside(base, bs, where, how)
+                    if b is not None:
+                        _check(ctx, 'side-outside', ts, dt, ba, bs, None, 'MONOCHROME2', pr, None, b, reqs, pending)
+                        side += 1
     # JPEG 2000 needs 32x32; 1-bit branch looks at dtype and max
     for ts, dt, ba, pi, pc, s in [(J2KL, 'uint8', 8, 'MONOCHROME2', None, None), (J2KL, 'bool', 1, 'MONOCHROME2', None, None),
                                   (J2KL, 'uint8', 1, 'MONOCHROME2', None, None), (J2K, 'uint8', 8, 'YBR_ICT', 0, 3),
@@ -399,7 +436,7 @@ def _frames(ctx, reqs, pending):
             dt, ba, pr = r.choice(choices)
             pi, pc, s = r.choice(['MONOCHROME1', 'MONOCHROME2', 'MONOCHROME2', 'PALETTE COLOR']), None, None
         bs = ba
-        if ba >= 8 and r.random() < 0.3:
+        if ba >= 8 and r.random() < 0.45:
             bs = r.randint(2, ba)
         if r.random() < 0.75:
             rows, cols = r.randint(1, 9), r.randint(1, 9)
@@ -417,8 +454,13 @@ def _frames(ctx, reqs, pending):
         layout = r.choice(['c', 'c', 'fortran', 'view', 'bigendian'])
         if ts not in NATIVE and layout == 'bigendian':
             layout = 'c'
+        kind = 'frame'
+        if 1 < bs < ba and r.random() < 0.35:
+            b = _poke_outside(a, bs, r.choice(['first', 'last', 'middle']), r.choice(['above', 'below', 'max', 'min']))
+            if b is not None:
+                a, kind = b, 'frame-outside'
         a = _layout(a, layout)
-        _check(ctx, 'frame', ts, dt, ba, bs, s, pi, pr, pc, a, reqs, pending, layout=layout)
+        _check(ctx, kind, ts, dt, ba, bs, s, pi, pr, pc, a, reqs, pending, layout=layout)
 
 
 def _uids(ctx, reqs, pending):
